@@ -4,7 +4,7 @@
 cd "$(dirname "$0")/.." || exit 2
 export GOFLAGS=-mod=mod GOPROXY=off GOWORK=off
 P="$1"; shift
-IDS="${*:-C02 C03 C04 C05 C06 C07 C08 C09 C10 C11 C12 C13 C14 C15 C16 C17 C18 C19 C20}"
+IDS="${*:-C01 C02 C03 C04 C05 C06 C07 C08 C09 C10 C11 C12 C13 C14 C15 C16 C17 C18 C19 C20}"
 TMP=$(mktemp -d "${TMPDIR:-/tmp}/webp-clean.XXXXXX")
 trap 'git -C /repo worktree remove --force "$TMP/wt" >/dev/null 2>&1; rm -rf "$TMP"' EXIT
 git -C /repo worktree add --detach "$TMP/wt" HEAD >/dev/null 2>&1 || exit 2
@@ -12,7 +12,7 @@ git -C "$TMP/wt" apply "$P" || { echo "PATCH DOES NOT APPLY"; exit 3; }
 (cd "$TMP/wt" && go build ./...) || { echo "DOES NOT BUILD"; exit 3; }
 rc=0
 for id in $IDS; do
-	out=$(VERIF_EVIDENCE_DIR="$TMP/ev" bin/webpcheck -prop "$id" -tier quick -repo "$TMP/wt" -verif "$(pwd)" 2>&1)
+	out=$(VERIF_EVIDENCE_DIR="$TMP/ev" ${WC:-bin/webpcheck} -prop "$id" -tier quick -repo "$TMP/wt" -verif "$(pwd)" 2>&1)
 	if [ $? -ne 0 ]; then
 		rc=1
 		echo "== FALSE ALARM $id on $P"
